@@ -39,7 +39,7 @@ func checkC09(c *Check) {
 	c.Rule("C09.R3", "answer shape: the logout answer redirects to config.GetLogout().GetRedirectUri() and expires the session cookie (timeout 0); with discovery, loadWellKnownConfig fills an empty logout redirect URI from end_session_endpoint or returns ErrMissingLogoutRedirectURI.", 4)
 	c.Rule("C09.R5", "the stores report a failed removal: the Redis store's RemoveSession returns the DEL command's error (nil only when Err() is nil), the memory store deletes unconditionally — so that `cannot be removed` reaches the handler as an error (R2).", 2)
 	c.Rule("C09.R4", "no resurrecting write: a store write that creates the session when absent (SetTokenResponse) must not follow, in one check, a blocking token-endpoint round trip that itself follows the read which justified the write — a logout answered during the round trip would be undone by the write. (Existence-conditional writes would satisfy the rule; the store interface offers none.)", 2)
-	if !requireModel(c, "C09.R1", m, "hw.", "cookie.builder", "sessionerrdeny") {
+	if !requireModel(c, "C09.R1", m, "hw.", "cookie.builder") {
 		return
 	}
 	pr := R.OIDCProcess
@@ -206,20 +206,29 @@ func checkC09(c *Check) {
 			}, nil); h != nil {
 				okFail, whyFail = false, "after a failed RemoveSession a redirect/cookie/allow is still reachable at "+P.Pos(instrPos(h))
 			}
-			// the denial there is the session-error response
+			// the answer there is a denial that carries neither the logout Location nor a cookie header
+			// (whichever builder made it): an error, not a successful logout
 			sawErrDeny := false
 			for _, b := range region {
 				for _, ins := range b.Instrs {
 					if cc, ok := ins.(*ssa.Call); ok && cc.Common().StaticCallee() == R.DenyWriter {
-						d, _, isC := asCall(resolveCell(stripConv(cc.Common().Args[1])))
-						if isC && d.Common().StaticCallee() == m.SessionErrDeny {
+						d := resolveCell(stripConv(cc.Common().Args[1]))
+						plain := true
+						for _, w := range []*headerWriter{m.LocationWriter, m.SetCookieWriter} {
+							for _, li := range callsToFn(pr, w.Fn) {
+								if sameVal(li.Common().Args[w.DenyIdx], d) {
+									plain = false
+								}
+							}
+						}
+						if plain {
 							sawErrDeny = true
 						}
 					}
 				}
 			}
 			if okFail && !sawErrDeny {
-				okFail, whyFail = false, "a failed RemoveSession is not answered with the session-error denial"
+				okFail, whyFail = false, "a failed RemoveSession is not answered with a plain denial (one without the logout Location and cookie)"
 			}
 		}
 		c.Obl(okFail, "C09.R2", "remove-failure-reports-error", P.Pos(remove.Pos()), "a failed removal is reported as a session error, never as a successful logout", whyFail)
